@@ -403,6 +403,14 @@ class Interp:
                 tm.mk_or(*parts)
         if c.op in ("and", "or", "not"):
             return c
+        if c.op == "call" and tm.callee_name(c) in ("builtins.any",
+                                                    "builtins.all") and \
+                len(c.args[1]) == 1 and \
+                self.unname(c.args[1][0]).op in ("tuple", "list"):
+            parts = [self.as_cond(x)
+                     for x in self.unname(c.args[1][0]).args]
+            return tm.mk_or(*parts) if tm.callee_name(c).endswith("any") \
+                else tm.mk_and(*parts)
         if c.op == "enum":
             return TRUE
         if c.op in ("tuple", "list", "set", "dict"):
@@ -990,7 +998,15 @@ class Interp:
     def ev_Subscript(self, n, frame, live):
         base = self.eval(n.value, frame, live)
         idx = self.eval(n.slice, frame, live)
+        return self.subscript(base, idx)
+
+    def subscript(self, base: T, idx: T) -> T:
         b = self.unname(base)
+        if b.op == "upd" and b.args[1] is idx:
+            return b.args[2]           # read back what was just stored
+        if b.op == "ite":
+            return tm.ite(b.args[0], self.subscript(b.args[1], idx),
+                          self.subscript(b.args[2], idx))
         if b.op in ("tuple", "list") and tm.is_const(idx) and \
                 isinstance(tm.const_val(idx), int) and \
                 not isinstance(tm.const_val(idx), bool):
